@@ -92,13 +92,33 @@ def Part1.bdryFrac (P : Part1) : Rat × Rat :=
   else (1 / 2 + (P.c 0 - P.lo) / (P.c 1 - P.c 0),
         1 / 2 + (P.hi - P.c (P.n - 1)) / (P.c (P.n - 1) - P.c (P.n - 2)))
 
-/-- `nodes_on_bdry_byaxis`: `np.isclose(grid.min_pt, set.min_pt)`, same for max. -/
-def Part1.nodesOnBdry (t : Tol) (P : Part1) : Bool × Bool :=
+/-- One side of `nodes_on_bdry_byaxis`: a grid point lies on the boundary iff its distance to it
+is `0` or negligible (`≤ rtol * scale`) compared to the adjacent grid stride. -/
+def onBdry (rtol dist scale : Rat) : Bool := decide (dist = 0) || decide (dist ≤ rtol * scale)
+
+/-- `nodes_on_bdry_byaxis` (`RectPartition.__init__`): scale = first / last grid stride, the extent
+of the set on an axis with one grid point; `rtol = 1e-5` in the code. -/
+def Part1.nodesOnBdry (rtol : Rat) (P : Part1) : Bool × Bool :=
+  let sl := if 1 < P.n then P.c 1 - P.c 0 else P.hi - P.lo
+  let sr := if 1 < P.n then P.c (P.n - 1) - P.c (P.n - 2) else P.hi - P.lo
+  (onBdry rtol (P.c 0 - P.lo) sl, onBdry rtol (P.hi - P.c (P.n - 1)) sr)
+
+/-- OLD variant (before the repair of finding C14-F3, kept to document the sensitivity):
+`np.isclose(grid.min_pt, set.min_pt)`, i.e. a tolerance relative to the magnitude of the
+coordinates plus an absolute one. -/
+def Part1.nodesOnBdryOld (t : Tol) (P : Part1) : Bool × Bool :=
   (isClose t (P.c 0) P.lo, isClose t (P.c (P.n - 1)) P.hi)
 
-/-- `RectGrid.is_uniform_byaxis`: `diff.size == 0 or np.allclose(diff, diff[0])`. -/
+/-- `RectGrid.is_uniform_byaxis`: `diff.size == 0 or np.allclose(diff, diff[0], atol=…)` with the
+tolerance `t` (see `Part1.uniTol` for the one the code uses). -/
 def Part1.isUniform (t : Tol) (P : Part1) : Bool :=
   (List.range (P.n - 1)).all fun i => isClose t (P.c (i + 1) - P.c i) (P.c 1 - P.c 0)
+
+/-- The tolerance of `is_uniform` in the code: `rtol` (`1e-5`) relative to the stride plus the
+rounding error of the coordinates `atol = 4 * eps * max |v|` (`eps = 2^-52`; the vector is sorted,
+so the maximum is attained at an end). -/
+def Part1.uniTol (eps rtol : Rat) (P : Part1) : Tol :=
+  ⟨4 * eps * (if rabs (P.c 0) < rabs (P.c (P.n - 1)) then rabs (P.c (P.n - 1)) else rabs (P.c 0)), rtol⟩
 
 /-- `cell_sides`: `grid.stride` (= grid extent / (n-1), `0.0` on a length-1 axis, NaN = `none`
 on a non-uniform axis), zeros replaced by the extent of the set. -/
@@ -140,6 +160,7 @@ inductive Idx
   | int (k : Int)
   | slice (start stop step : Option Int)
   | ellipsis
+  | list (l : List Int)   -- a list inside a tuple index: NumPy integer-array indexing of that axis
   deriving Repr, DecidableEq
 
 /-- Python `slice(start, stop, step).indices(len)` without the step (`step ≠ 0`). -/
@@ -180,9 +201,16 @@ def Part1.getSlice (P : Part1) (start stop step : Option Int) : Option Part1 :=
         let m := sliceLen g.1 g.2 stp
         Part1.mk? ⟨m, fun (i : Nat) => P.c (g.1 + (i : Int) * stp).toNat, P.bdry h0.toNat, P.bdry h1.toNat⟩
 
-/-- Integer index with `int_to_slice=True`: `if idx < 0: idx += n`, `idx >= n` raises,
-then `slice(idx, idx + 1)` (a still-negative `idx` is NOT rejected by the code). -/
+/-- Integer index with `int_to_slice=True`: `if idx < 0: idx += n`, then `idx < 0 or idx >= n`
+raises, then `slice(idx, idx + 1)`. -/
 def Part1.getInt (P : Part1) (k : Int) : Option Part1 :=
+  let k' := if k < 0 then k + P.n else k
+  if k' < 0 ∨ (P.n : Int) ≤ k' then none
+  else P.getSlice (some k') (some (k' + 1)) none
+
+/-- OLD variant (before the repair of finding C14-F4): a still-negative index was not rejected,
+so `p[-6]` on 4 cells wrapped a second time inside the slice. -/
+def Part1.getIntOld (P : Part1) (k : Int) : Option Part1 :=
   let k' := if k < 0 then k + P.n else k
   if (P.n : Int) ≤ k' then none
   else P.getSlice (some k') (some (k' + 1)) none
@@ -225,6 +253,7 @@ def getAxis (P : Part1) : Idx → Option Part1
   | .int k => P.getInt k
   | .slice a b s => P.getSlice a b s
   | .ellipsis => none
+  | .list l => P.getList l
 
 /-- `partition[indices]` for a tuple / single index. -/
 def getItem (P : Part) (idx : List Idx) : Option Part := do
@@ -266,6 +295,77 @@ def squeeze (P : Part) (axis : Option (List Int)) : Option Part := do
   let keep := (List.range P.length).filter fun i => !rng.contains i || decide (1 < (P.getD i ⟨0, fun _ => 0, 0, 0⟩).n)
   some (keep.filterMap fun i => P[i]?)
 
+/-! ### the two halves of a partition, as the code keeps and updates them
+
+`RectPartition` holds a `RectGrid` (coordinate vectors) and an `IntervalProd` (`min_pt`, `max_pt`)
+and `insert` / `append` / `squeeze` update the two through DIFFERENT methods (grid.py vs
+domain.py), re-assembling with `RectPartition(newset, newgrid)`.  `Part` above is the aligned
+view; the functions below follow the two code paths separately (they are what the driver runs),
+and `C14.insert_two_paths_aligned` / `C14.squeeze_two_paths_aligned` prove that the paths cannot
+get out of step. -/
+
+/-- one coordinate vector of a `RectGrid`: length and entries -/
+abbrev Vec := Nat × (Nat → Rat)
+
+def Part1.vec (p : Part1) : Vec := (p.n, p.c)
+def Part1.intv (p : Part1) : Rat × Rat := (p.lo, p.hi)
+
+/-- `RectPartition(intv_prod, grid)`: equal number of axes, then the per-axis checks. -/
+def assemble (G : List Vec) (S : List (Rat × Rat)) : Option Part :=
+  if G.length ≠ S.length then none
+  else (List.zip G S).mapM fun x => Part1.mk? ⟨x.1.1, x.1.2, x.2.1, x.2.2⟩
+
+/-- `RectGrid.insert(index, *grids)` (grid.py): range check, negative wrap, then insert the first
+grid and recursively the others at `index + grids[0].ndim`. -/
+def gridInsertAt (G : List Vec) (i : Nat) : List (List Vec) → List Vec
+  | [] => G
+  | Q :: rest => gridInsertAt (G.take i ++ Q ++ G.drop i) (i + Q.length) rest
+
+def gridInsert (G : List Vec) (index : Int) (grids : List (List Vec)) : Option (List Vec) :=
+  let nd : Int := G.length
+  if index < -nd ∨ nd < index then none
+  else some (gridInsertAt G (if index < 0 then index + nd else index).toNat grids)
+
+/-- `IntervalProd.insert(index, *intvs)` (domain.py): the same scheme written a second time on the
+`min_pt` / `max_pt` arrays (`new[:index]`, `new[index:index + intv.ndim]`, `new[index + intv.ndim:]`),
+recursing at `index + intvs[0].ndim`. -/
+def setInsertAt (S : List (Rat × Rat)) (i : Nat) : List (List (Rat × Rat)) → List (Rat × Rat)
+  | [] => S
+  | Q :: rest => setInsertAt (S.take i ++ Q ++ S.drop i) (i + Q.length) rest
+
+def setInsert (S : List (Rat × Rat)) (index : Int) (intvs : List (List (Rat × Rat))) :
+    Option (List (Rat × Rat)) :=
+  let nd : Int := S.length
+  if index < -nd ∨ nd < index then none
+  else some (setInsertAt S (if index < 0 then index + nd else index).toNat intvs)
+
+/-- `RectPartition.insert`: `newgrid = self.grid.insert(index, *(p.grid …))`,
+`newset = self.set.insert(index, *(p.set …))`, `RectPartition(newset, newgrid)`. -/
+def insert2 (P : Part) (index : Int) (parts : List Part) : Option Part := do
+  let G ← gridInsert (P.map Part1.vec) index (parts.map fun Q => Q.map Part1.vec)
+  let S ← setInsert (P.map Part1.intv) index (parts.map fun Q => Q.map Part1.intv)
+  assemble G S
+
+def append2 (P : Part) (parts : List Part) : Option Part := insert2 P P.length parts
+
+/-- `RectPartition.squeeze(axis)`: `new_indcs` from `self.grid.nondegen_byaxis`,
+`newset = self.set[new_indcs]` (domain.py `__getitem__`), while `self.grid.squeeze(axis)` (grid.py)
+recomputes its own index list from its own coordinate vectors. -/
+def squeeze2 (P : Part) (axis : Option (List Int)) : Option Part := do
+  let G := P.map Part1.vec
+  let S := P.map Part1.intv
+  let rngP ← match axis with
+    | none => some (List.range P.length)
+    | some l => l.mapM (wrapIndex P.length)
+  let newIndcs := (List.range P.length).filter fun i => !rngP.contains i || decide (1 < (G.getD i (0, fun _ => 0)).1)
+  let newset := newIndcs.filterMap fun i => S[i]?
+  let rngG ← match axis with
+    | none => some (List.range G.length)
+    | some l => l.mapM (wrapIndex G.length)
+  let gridIndcs := (List.range G.length).filter fun i => !rngG.contains i || decide (1 < (G.getD i (0, fun _ => 0)).1)
+  let newgrid := gridIndcs.filterMap fun i => G[i]?
+  assemble newgrid newset
+
 /-- `byaxis[int]` / `byaxis[slice]`: `slc = zeros(ndim, object); slc[indices] = slice(None)`,
 index the partition with it (`0` on the unselected axes) and squeeze the unselected axes. -/
 def byaxisSel (P : Part) (sel : List Nat) : Option Part := do
@@ -298,36 +398,74 @@ def byaxisList (P : Part) (l : List Int) : Option Part := do
 
 /-! ### constructors -/
 
-/-- How `nodes_on_bdry` was passed. `flat l r` is the 1-d form `nodes_on_bdry=(l, r)`. -/
+/-- One entry of a `nodes_on_bdry` sequence: a bool or a pair of bools. -/
+inductive FlagEntry
+  | b (x : Bool)
+  | pair (l r : Bool)
+  deriving Repr, DecidableEq
+
+/-- The raw Python value passed as `nodes_on_bdry`: a bool or a sequence of entries. -/
 inductive Flags
   | global (b : Bool)
-  | flat (l r : Bool)
-  | perAxis (f : List (Bool × Bool))
+  | seq (l : List FlagEntry)
   deriving Repr
 
-/-- What the loops in `uniform_partition` / `nonuniform_partition` see per axis after
-`normalized_nodes_on_bdry(nodes_on_bdry, ndim)`: a list of `(left, right)` pairs.  The 1-d
-flat form `(l, r)` becomes `[(l, r)]`. -/
+def FlagEntry.isBool : FlagEntry → Bool
+  | .b _ => true
+  | .pair _ _ => false
+
+/-- Python truth value of an entry used as a flag (a non-empty tuple is true). -/
+def FlagEntry.truthy : FlagEntry → Bool
+  | .b x => x
+  | .pair _ _ => true
+
+/-- An entry read per axis: a bool stands for both sides. -/
+def FlagEntry.both : FlagEntry → Bool × Bool
+  | .b x => (x, x)
+  | .pair l r => (l, r)
+
+/-- `normalized_nodes_on_bdry(nodes_on_bdry, ndim)` (odl/util/normalize.py), used by the loops of
+`uniform_partition` and `nonuniform_partition`: a bool is global; for `ndim = 1` a sequence of two
+bools is ONE `(left, right)` pair; a sequence of length `ndim` is read per axis; anything else
+raises. -/
 def Flags.loopFlags (f : Flags) (ndim : Nat) : Option (List (Bool × Bool)) :=
   match f with
   | .global b => some (List.replicate ndim (b, b))
-  | .flat l r => if ndim = 1 then some [(l, r)] else none
-  | .perAxis fl => if fl.length = ndim then some fl else none
+  | .seq l =>
+    if ndim = 1 ∧ l.length = 2 ∧ l.all FlagEntry.isBool then
+      match l with
+      | [x, y] => some [(x.truthy, y.truthy)]
+      | _ => none
+    else if l.length = ndim then some (l.map FlagEntry.both)
+    else none
 
 /-- OLD variant (before the repair of finding C14-F1, kept to document the sensitivity):
 `normalized_nodes_on_bdry((l, r), 1)` returned the list `[l, r]`; the loop's `zip` then read
 the bare bool `l` in axis 0 and `uniform_partition` used it for both sides. -/
 def Flags.loopFlagsOld (f : Flags) (ndim : Nat) : Option (List (Bool × Bool)) :=
   match f with
-  | .flat l _ => if ndim = 1 then some [(l, l)] else none
+  | .seq [.b l, .b _] => if ndim = 1 then some [(l, l)] else f.loopFlags ndim
   | f => f.loopFlags ndim
 
-/-- What `uniform_grid_fromintv` makes of the (normalised) flags it is handed. -/
+/-- The handling of `nodes_on_bdry` inside `uniform_grid_fromintv` (odl/discr/grid.py), a SECOND,
+differently written normalisation: a bool is global; for `ndim = 1` ANY sequence of length 2 is
+wrapped as the single axis entry and unpacked as `(bdry_l, bdry_r)` (truth values); otherwise the
+length must be `ndim` and each entry is unpacked as a pair, a bare bool (`TypeError` on
+unpacking) standing for both sides. -/
 def Flags.gridFlags (f : Flags) (ndim : Nat) : Option (List (Bool × Bool)) :=
   match f with
   | .global b => some (List.replicate ndim (b, b))
-  | .flat l r => if ndim = 1 then some [(l, r)] else none
-  | .perAxis fl => if fl.length = ndim then some fl else none
+  | .seq l =>
+    if ndim = 1 ∧ l.length = 2 then
+      match l with
+      | [x, y] => some [(x.truthy, y.truthy)]
+      | _ => none
+    else if l.length ≠ ndim then none
+    else some (l.map FlagEntry.both)
+
+/-- The already normalised list as `uniform_partition` hands it on to `uniform_partition_fromintv`. -/
+def Flags.ofNormalized (fl : List (Bool × Bool)) : Flags :=
+  .seq (fl.map fun p => FlagEntry.pair p.1 p.2)
 
 def halfCount (bl br : Bool) : Rat := ((if bl then 1 else 0) + (if br then 1 else 0)) / 2
 
@@ -393,7 +531,8 @@ def uniformPartition (t : Tol) (eps : Rat) (xmin xmax : List (Option Rat)) (shap
   let lf ← flags.loopFlags nd
   let done ← (List.zip (List.zip xmin xmax) (List.zip (List.zip shape dx) lf)).mapM
     fun ((a, b), ((n, d), (bl, br))) => completeAxis t eps a b n d bl br
-  let gf ← flags.gridFlags nd
+  -- the NORMALISED list is passed on and normalised a second time by `uniform_grid_fromintv`
+  let gf ← (Flags.ofNormalized lf).gridFlags nd
   if done.any (fun (_, _, n) => n < 1) then none
   fromIntv (done.map (·.1)) (done.map (·.2.1)) (done.map (·.2.2.toNat)) gf
 
